@@ -117,6 +117,7 @@ def run(ctx):
     # ... and the opcode whose routine runs is the byte that was fetched (also for STOP, resumed by the continue key)
     from .. import fetchlatch
     fetchlatch.obligations(ctx, prefix="fetch/")
+    fetchlatch.stop_edge_advances(ctx, prefix="fetch/")
     # ---- ... and the ALU functions have the documented shape (the rule of C08, shared) -------
     from . import C08
     chk.prefix = "alu/"
